@@ -359,7 +359,21 @@ func (x *Exec) stmt(s ast.Stmt, st *State, cs []*ctl) []*State {
 		return []*State{st}
 	case *ast.EmptyStmt:
 		return []*State{st}
-	case *ast.GoStmt, *ast.SelectStmt, *ast.SendStmt:
+	case *ast.GoStmt:
+		// `go func() {...}()`: the literal is verified as a unit of its own from
+		// the state at the go statement (`lit N` clauses, loop invariants by
+		// ordinal); for the spawning function whatever the goroutine assigns is
+		// unknown from here on. Interleavings with the spawner are not modelled
+		// (listed as an assumption).
+		if lit, ok := s.Call.Fun.(*ast.FuncLit); ok && len(s.Call.Args) == 0 {
+			x.assumes["goroutine "+x.site("go", s)+" is verified sequentially from the state at its go statement; the spawner does not touch what it uses afterwards"] = true
+			x.checkLit(lit, st, true)
+			x.havoc(st, x.modifiedIn(lit.Body))
+			return []*State{st}
+		}
+		x.fail(s.Pos(), "outside subset: %T", s)
+		return nil
+	case *ast.SelectStmt, *ast.SendStmt:
 		x.fail(s.Pos(), "outside subset: %T", s)
 		return nil
 	case *ast.TypeSwitchStmt:
